@@ -34,6 +34,45 @@ I = z3.IntSort()
 B = z3.BoolSort()
 
 
+def _contains_lambda(t, seen):
+    if t.get_id() in seen:
+        return False
+    seen.add(t.get_id())
+    if z3.is_quantifier(t):
+        return t.is_lambda() or _contains_lambda(t.body(), seen)
+    return any(_contains_lambda(c, seen) for c in t.children())
+
+
+def lift_lambda(t):
+    """An array-valued term built from lambdas (gathered / sliced / element-wise arrays) -> an application G(c1..cn) of an
+    uninterpreted function to the free constants of the term, G being keyed by the term's structure.  Structurally equal
+    terms over equal constants become equal applications, so congruence replaces reasoning about lambdas.  Sound: it only
+    forgets the cells' definitions (which the callers state separately where they need them)."""
+    import hashlib
+    if not _contains_lambda(t, set()):
+        return t
+    consts, seen = [], set()
+
+    def walk(x):
+        if x.get_id() in seen:
+            return
+        seen.add(x.get_id())
+        if z3.is_quantifier(x):
+            walk(x.body())
+            return
+        if z3.is_const(x) and x.decl().kind() == z3.Z3_OP_UNINTERPRETED:
+            consts.append(x)
+            return
+        for c in x.children():
+            walk(c)
+    walk(t)
+    place = [z3.Const("P!%d" % j, c.sort()) for j, c in enumerate(consts)]
+    shape = z3.substitute(t, *zip(consts, place)) if consts else t
+    key = hashlib.md5((shape.sexpr() + "|" + ",".join(str(c.sort()) for c in consts)).encode()).hexdigest()[:12]
+    G = ufunc("LIFT_" + key, *([c.sort() for c in consts] + [t.sort()]))
+    return G(*consts) if consts else G()
+
+
 _KEEP = []
 
 
